@@ -72,7 +72,7 @@ PROFILES = {
     "fanout": Profile("fanout", W(add=10, open=8, conn=8, claim=2, alloc=0, release=1, restart=3, adv=5), napps=1, nsides=3, nmail=2, nnames=2, forged=True),
     "claims": Profile("claims", W(claim=10, claim_open=2, release=5, close=4, add=1, open=2, restart=2, longadv=2, adv=6, reconn=5), napps=2, nnames=3),
     "crowd": Profile("crowd", W(claim=8, open=7, close=4, release=3, add=4, reconn=4, conn=8, alloc=0, longadv=2, adv=2), napps=1, nsides=4, nnames=1, nmail=1),
-    "holders": Profile("holders", W(claim=9, release=7, list=4, close=3, alloc=3, open=2, add=1, restart=1), napps=1, nsides=2, nnames=3),
+    "holders": Profile("holders", W(claim=9, release=7, list=4, close=3, alloc=3, open=2, add=1, restart=2), napps=1, nsides=2, nnames=3),
     "closers": Profile("closers", W(close=8, open=6, claim=5, claim_open=4, release=3, add=4, reconn=4, resend=3), napps=1, nsides=2, nnames=2, nmail=2),
     "clock": Profile("clock", W(adv=9, add=5, open=5, claim=4, drop=4, reconn=3, restart=1, alloc=1, faultadv2=1), napps=2, nnames=2, nmail=2),
     "hostile": Profile("hostile", W(bad=14, rawconn=2, ping=2, conn=6), napps=2),
@@ -84,7 +84,7 @@ PROFILES = {
     "dups": Profile("dups", W(resend=8, adv=3, restart=1, close=4, release=3), napps=1, nsides=3, nnames=2, nmail=2, dup=True),
     "alloc": Profile("alloc", W(fill=10, alloc=14, release=6, claim=4, close=3, flow_step=8, flow_new=2, longadv=1, adv=2, conn=6), napps=2, nsides=3, nnames=5, nmail=2),
     "shared": Profile("shared", W(open=8, add=8, close=5, claim=2, flow_step=10, reconn=4, restart=2, adv=2, longadv=1), napps=2, nsides=2, nnames=2, nmail=1, cross_app_mailbox=True),
-    "options": Profile("options", W(alloc=6, list=6, release=6, close=5, claim=5, longadv=1), napps=2, nsides=3, nnames=3, nmail=2),
+    "options": Profile("options", W(alloc=6, list=6, release=6, close=5, claim=5, longadv=1, restart=3), napps=2, nsides=3, nnames=3, nmail=2),
     "twoapps": Profile("twoapps", W(close=5, release=4, adv=3, longadv=1, restart=1, faultadv=1, faultadv2=3), napps=2, nsides=2, nnames=2, nmail=2),
 }
 
@@ -442,6 +442,10 @@ class Driver(object):
                     f.step(t1, t2)
                 return
             self.do({"op": "rephase" if p.rephase else "restart"})
+            if p.weights.get("list", 0) >= 4 and b % 2:
+                # the first thing a client asks a freshly started server
+                ncid = self.new_conn(self.app_of(a), self.side_of(c))
+                self.do({"op": "send", "c": ncid, "msg": {"type": "list"}})
             if p.rephase and b % 3:
                 # sweeps before / between the reconnects
                 if c % 2:
